@@ -41,7 +41,12 @@ def main():
         # remove it at the end with vp/clean_scratch.py /tmp/seeded-wt
         repo = "/tmp/seeded-wt"
         sh(["git", "-C", "/repo", "worktree", "remove", "--force", repo])
-        rc, out = sh(["git", "-C", "/repo", "worktree", "add", "--detach", repo, "HEAD"])
+        for _try in range(20):
+            rc, out = sh(["git", "-C", "/repo", "worktree", "add", "--detach", repo, "HEAD"])
+            if rc == 0:
+                break
+            sh(["git", "-C", "/repo", "worktree", "prune"])
+            time.sleep(3)
         if rc != 0:
             sys.exit(out)
         rc, out = sh(["git", "-C", repo, "apply", patch])
